@@ -2,7 +2,7 @@
 observed, classifies violations against known_findings.txt, writes evidence and
 replay files, and sets the exit code.
 
-  ./check <ID> [quick|thorough] [--replay <path>] [--shards N] [--keep]
+  ./check <ID> [quick|thorough] [--replay <path>] [--shrink <path>] [--shards N] [--keep]
 
 exit 0: held on everything observed (KNOWN-FINDING lines allowed)
 exit 1: at least one violation not listed as known -> "VIOLATION property=<id> replay=<path>"
@@ -198,6 +198,9 @@ def main(argv=None):
             tier = a
         elif a == '--replay':
             replay = argv.pop(0)
+        elif a == '--shrink':
+            # witness minimisation (vf/shrink.py); a reading aid, never part of a verdict
+            return subprocess.call([PY, '-m', 'vf.shrink', prop, argv.pop(0)], cwd=VERIF, env=child_env())
         elif a == '--shards':
             nshards = int(argv.pop(0))
         elif a == '--keep':
@@ -270,7 +273,8 @@ def report(prop, mod, tier, seed, ns, m, problems, wall, replay):
         for i, v in enumerate(unlisted[:25]):
             v['nshards'] = ns
             replay_paths.append('(not written)' if no_evidence else write_replay(prop, v, i))
-        if not no_evidence:
+        # evidence describes /repo itself: a run against a scratch copy ($VERIF_REPO) never rewrites it
+        if not no_evidence and env.REPO == '/repo':
             write_evidence(prop, mod, tier, seed, ns, m, wall, matched, unlisted, inconclusive)
 
     for text, n in matched.items():
